@@ -263,3 +263,88 @@ Example C08_example_abandoned :
   upd (run (MkCfg 2 false false) tr2) = [(1, 1); (2, 1)] /\
   lseqs_of 1 0 (delivered (run (MkCfg 2 false false) tr2)) = [0; 0].
 Proof. vm_compute. repeat split; reflexivity. Qed.
+
+(* ---- the root gate's bounded command channel (16 places) and `impl Drop for Link` (GateModel.v bst / bstep):
+   every sender of a command waits for room; the FIFO of the gate model is the channel followed by the waiting
+   senders, first-come first-served ---- *)
+
+(* all schedules: the channel never holds more than COMMAND_QUEUE_LEN commands, and they are the head of the FIFO *)
+Theorem C08_root_channel_bounded : forall cf tr,
+  (b_in (brun cf tr) <= N.to_nat cmd_queue_len)%nat /\
+  (b_in (brun cf tr) <= length (rootq (b_st (brun cf tr))))%nat.
+Proof. exact root_channel_bounded. Qed.
+Print Assumptions C08_root_channel_bounded.
+
+(* every schedule of the bounded gate in which senders wait (the code as it is) is a schedule of the gate model *)
+Theorem C08_bounded_gate_refines : forall cf tr, waits_only tr = true ->
+  exists tr', b_st (brun cf tr) = run cf tr'.
+Proof. exact bounded_gate_refines. Qed.
+Print Assumptions C08_bounded_gate_refines.
+
+(* dropping a connected link, whatever the fill of the channel at that moment: the link is idle at once, the
+   Unsubscribe of its slot is at the end of the FIFO - in the hands of a waiting sender if there was no room -
+   and everything that was on the FIFO is still there, in order *)
+Theorem C08_drop_link_unsubscribe_in_flight : forall cf b l x sb,
+  (b_in b <= length (rootq (b_st b)))%nat /\ (b_in b <= qcap)%nat -> links (b_st b) l = LConn x sb ->
+  let b' := bstep cf b (BDropLink l) in
+  links (b_st b') l = LIdle /\
+  rootq (b_st b') = rootq (b_st b) ++ [CUnsub x] /\
+  (b_room b = false -> b_in b' = b_in b /\ b_waiting b' = b_waiting b ++ [CUnsub x]).
+Proof. exact drop_link_unsubscribe_in_flight. Qed.
+Print Assumptions C08_drop_link_unsubscribe_in_flight.
+
+(* all schedules (links dropped at any fill of the channel): a dropped link's slot is always given back - as
+   long as the slot is in the gate's maps its link holds it or its Unsubscribe is in the channel / with a
+   waiting sender; once the root has worked off the FIFO the idle link has no slot *)
+Theorem C08_dropped_link_slot_given_back : forall cf tr x l,
+  cf_follow cf = false -> cf_guard cf = true -> waits_only tr = true ->
+  In (x, l) (upd (b_st (brun cf tr)) ++ sus (b_st (brun cf tr))) ->
+  holds_slot (links (b_st (brun cf tr)) l) x \/
+  In (CUnsub x) (b_channel (brun cf tr) ++ b_waiting (brun cf tr)).
+Proof. exact dropped_link_slot_given_back. Qed.
+Print Assumptions C08_dropped_link_slot_given_back.
+
+Theorem C08_dropped_link_has_no_slot_when_drained : forall cf tr x l,
+  cf_follow cf = false -> cf_guard cf = true -> waits_only tr = true ->
+  links (b_st (brun cf tr)) l = LIdle -> rootq (b_st (brun cf tr)) = [] ->
+  ~ In (x, l) (upd (b_st (brun cf tr)) ++ sus (b_st (brun cf tr))).
+Proof. exact dropped_link_has_no_slot_when_drained. Qed.
+Print Assumptions C08_dropped_link_has_no_slot_when_drained.
+
+(* all schedules: a component that drops its link and links again - at once, while its Unsubscribe still waits -
+   never has two slots, and gets every update at most once and in order *)
+Theorem C08_relinked_target_one_slot : forall cf tr x1 x2 l,
+  cf_follow cf = false -> cf_guard cf = true -> waits_only tr = true ->
+  In (x1, l) (upd (b_st (brun cf tr)) ++ sus (b_st (brun cf tr))) ->
+  In (x2, l) (upd (b_st (brun cf tr)) ++ sus (b_st (brun cf tr))) -> x1 = x2.
+Proof. exact bounded_one_slot_per_link. Qed.
+Print Assumptions C08_relinked_target_one_slot.
+
+Theorem C08_at_most_once_in_order_bounded : forall cf tr l p,
+  cf_follow cf = false -> cf_guard cf = true -> waits_only tr = true ->
+  strictly_desc (lseqs_of l p (delivered (b_st (brun cf tr)))).
+Proof. exact bounded_at_most_once_in_order. Qed.
+Print Assumptions C08_at_most_once_in_order_bounded.
+
+(* the variant in which Drop for Link uses try_send (seeded change C08-c2): 16 commands in the channel, the
+   link is dropped, its component links again, the gate works off its commands, one update: the old slot is
+   still there and the update is handed over twice *)
+Theorem C08_drop_try_send_refuted :
+  let cf := MkCfg 2 false true in
+  let tr := b_relink_schedule (BDropLinkTry 1) in
+  b_in (brun cf (firstn 38 tr)) = 16%nat /\ nth_error tr 38 = Some (BDropLinkTry 1) /\
+  upd (b_st (brun cf tr)) = [(0, 1); (17, 1)] /\ rootq (b_st (brun cf tr)) = [] /\
+  lseqs_of 1 0 (delivered (b_st (brun cf tr))) = [1; 1; 0] /\
+  ~ strictly_desc (lseqs_of 1 0 (delivered (b_st (brun cf tr)))).
+Proof. exact drop_try_send_refuted. Qed.
+Print Assumptions C08_drop_try_send_refuted.
+
+(* the same schedule with the Unsubscribe waiting for room: handled before the new Subscribe, one slot, once *)
+Example C08_example_drop_waits :
+  let cf := MkCfg 2 false true in
+  let tr := b_relink_schedule (BDropLink 1) in
+  waits_only tr = true /\
+  b_in (brun cf (firstn 39 tr)) = 16%nat /\ b_waiting (brun cf (firstn 39 tr)) = [CUnsub 0] /\
+  upd (b_st (brun cf tr)) = [(17, 1)] /\ rootq (b_st (brun cf tr)) = [] /\
+  lseqs_of 1 0 (delivered (b_st (brun cf tr))) = [1; 0].
+Proof. exact drop_waits_example. Qed.
